@@ -153,8 +153,11 @@ def gen_hostile(r, corp):
 
 
 # ---------------------------------------------------------------------------------------------- cases
-def case_dict(kind, transport, auth, nb, toks):
-    return dict(kind="history", server=kind, transport=transport, auth=bool(auth), nb=nb, ops=list(toks))
+def case_dict(kind, transport, auth, nb, toks, opts=()):
+    d = dict(kind="history", server=kind, transport=transport, auth=bool(auth), nb=nb, ops=list(toks))
+    if opts:
+        d["opts"] = sorted(opts)      # harness-side configuration the model does not see (servers.Session)
+    return d
 
 
 def corpus():
@@ -200,6 +203,31 @@ def corpus():
         for n in range(nuses):
             toks += ["x1:%d:%d" % (n, n + 1), "u2:%d" % n, "x1:%d:%d" % (n + 7, n + 3), "u3:%d" % ((n + 5) % nuses)]
         out.append(case_dict(kind, "unix", False, 3, toks + ["p2", "p3"]))
+    foreign, first = servers.FOREIGN_NAMES, servers.FIRST_RAISE
+    nraise = len(servers.POISON_ANSWERS) - first
+    for kind in KINDS:
+        # conversations in which the CLIENT answers what the server asks while it handles the client's request - the class
+        # inspection of an object of a type the server has never seen, the call on that object - with an exception reply
+        # naming KeyboardInterrupt, SystemExit, GeneratorExit, BaseException, StopIteration: more such clients than a pool has
+        # workers, one of them several times on one connection; the well-behaved clients go on before, between and after
+        toks = ["c1:g", "p1"]
+        for i in range(nraise):
+            k = i + 2
+            toks += ["c%d:g" % k, "x%d:%d:%d" % (k, foreign[i % len(foreign)], first + i)]
+            if i % 3 == 2:
+                toks += ["p1"]
+        toks += ["c30:g"] + ["x30:%d:%d" % (foreign[i % len(foreign)], first + (i * 4) % nraise) for i in range(4)]
+        toks += ["p1", "u1:0", "c40:g", "p40", "u40:3"]
+        out.append(case_dict(kind, "unix" if kind == "forking" else "tcp", False, 3, toks))
+    for tr in ("tcp", "unix"):
+        # every connection carries the credentials and the peer address of ITS client: the service's constructor of one client
+        # takes its time (`s` with the "gate" option: good credentials at once, the constructor waits for `k<k>:g`) while
+        # others log in and are served; each asks the server whose connection it is talking to (`w`)
+        out.append(case_dict("threaded", tr, True, 3, ["c1:g", "w1", "c2:s", "c3:g", "w3", "k2:g", "w2", "w3", "w1", "c4:s",
+                                                       "c5:s", "c6:g", "k5:g", "w5", "w6", "k4:g", "w4", "w5", "p2", "w2"],
+                             opts=["gate"]))
+    for kind in KINDS:
+        out.append(case_dict(kind, "tcp", True, 3, ["c1:g", "w1", "c2:g", "w2", "c3:b", "w1", "a2", "c4:g", "w4", "w1"]))
     for kind in KINDS:
         # clients that reset while inside the authenticator (slow credentials, then RST) - except on the pool, where one
         # such client is the stall finding: there they reset at once
@@ -300,7 +328,7 @@ def gen_case(r, corp, kind=None):
         # well-behaved clients go on meanwhile
         for g in list(good):
             if r.chance(2, 3):
-                toks.append("p%d" % g)
+                toks.append(("w%d" if r.chance(1, 5) else "p%d") % g)
             if r.chance(1, 3):
                 toks.append("u%d:%d" % (g, r.below(len(servers.USES))))
         if good and r.chance(1, 3):
@@ -354,7 +382,7 @@ def model_lines(case):
 
 def run_impl(case, expect=None, ceiling=servers.CEILING):
     return servers.run_case(case["server"], case["transport"], case["auth"], case["nb"], case["ops"], expect=expect,
-                            ceiling=ceiling)
+                            ceiling=ceiling, opts=case.get("opts", ()))
 
 
 def compare_case(case, ceiling=servers.CEILING):
@@ -463,10 +491,11 @@ def oracle_case(case, known=(), ceiling=servers.CEILING):
     Well-behaved = connected with good credentials and never sent raw bytes; their calls must be answered correctly, the
     server must accept afterwards, instances and tables must be distinct."""
     kind = case["server"]
-    sess = servers.Session(kind, case["transport"], case["auth"], case["nb"])
+    sess = servers.Session(kind, case["transport"], case["auth"], case["nb"], opts=case.get("opts", ()))
+    gated = "gate" in case.get("opts", ())
     try:
         hostile, holding, stalled = set(), set(), set()
-        armed, in_hook = set(), set()
+        armed, in_hook, waiting = set(), set(), set()
         for i, tok in enumerate(case["ops"]):
             t = tok[0]
             if t == "X":
@@ -474,18 +503,20 @@ def oracle_case(case, known=(), ceiling=servers.CEILING):
             k = int(tok[1:].split(":")[0])
 
             where = "after op %d (%s): " % (i, tok[:60])
-            if t == "c" and tok.split(":")[1] != "g":
+            if t == "c" and tok.split(":")[1] != "g" and not (gated and tok.endswith(":s")):
                 hostile.add(k)
                 if tok.endswith(":s") and case["auth"]:
                     stalled.add(k)
+            if t == "c" and gated and tok.endswith(":s"):
+                waiting.add(k)              # well-behaved; its service's constructor takes its time
+            if t == "k" and gated:
+                waiting.discard(k)
             if t == "k":
                 stalled.discard(k)
                 if tok.endswith(":g"):
                     hostile.discard(k)        # slow, but well-behaved from here on
             if t == "x":
                 hostile.add(k)
-            if t == "c" and tok.count(":") == 2 and obs != "ok":
-                continue        # the kernel did not hand out the expected number: the scenario did not take place
             if t in "ri":
                 hostile.add(k)
                 data = bytes.fromhex(tok.split(":")[1]) if t == "r" else b"".join(
@@ -496,6 +527,8 @@ def oracle_case(case, known=(), ceiling=servers.CEILING):
                 holding.discard(k)
                 stalled.discard(k)
             obs = sess.do(tok)
+            if t == "c" and tok.count(":") == 2 and obs != "ok":
+                return None     # the kernel did not hand out the expected number: the scenario did not take place
             if t == "m" and obs == "done":
                 armed.add(k)
             if t in "azg" and k in armed:
@@ -531,12 +564,13 @@ def oracle_case(case, known=(), ceiling=servers.CEILING):
                 excuse = SIG_STARVE
             if kind == "pool" and stalled:
                 excuse = excuse or SIG_STALL
-            if k in hostile or obs == "skip":
+            if k in hostile or k in waiting or obs == "skip":
                 continue
             if t == "c" and obs != "ok":
                 return where + "a well-behaved client could not connect: %s" % obs, "C16:%s:not-accepting" % kind
-            if t in "plodum":
-                want = dict(p=("pong",), l=("ref",), o=("keyerr", "resolved"), d=("done",), u=("pong",), m=("done",))[t]
+            if t in "plodumw":
+                want = dict(p=("pong",), l=("ref",), o=("keyerr", "resolved"), d=("done",), u=("pong",), m=("done",),
+                            w=("pong",))[t]
                 if obs not in want:
                     if obs == "timeout" and excuse:
                         if excuse in known:
@@ -551,6 +585,10 @@ def oracle_case(case, known=(), ceiling=servers.CEILING):
                         sig = "C16:pool:fd-reuse-drops-newcomer"
                     if t == "u":
                         sig = "C16:%s:good-client-wrong-result" % kind
+                    if t == "w" and obs.startswith("wrong"):
+                        sig = "C16:%s:connection-carries-another-clients-identity" % kind
+                        return (where + "the server-side connection of well-behaved client %d carries (credentials, peer) %s"
+                                % (k, obs[6:])), sig
                     if obs == "leak":
                         sig = "C16:%s:state-leak-between-instances" % kind
                     return where + "well-behaved client %d got %r" % (k, obs), sig
@@ -582,6 +620,14 @@ def oracle_case(case, known=(), ceiling=servers.CEILING):
         if res != "pong" and not (excuse and excuse in known):
             return ("at the end: a new well-behaved client got %r%s" % (res, " (%s)" % excuse if excuse else ""),
                     excuse or "C16:%s:not-accepting" % kind)
+        # the pool still has all its workers (each one lost is capacity gone for good: nbThreads such clients and it serves
+        # nobody)
+        workers = getattr(getattr(sess.backend, "srv", None), "workers", None)
+        if kind == "pool" and workers is not None:
+            dead = sum(1 for w in workers if not w.is_alive())
+            if dead:
+                return ("at the end: %d of the pool's %d worker threads have died" % (dead, len(workers)),
+                        "C16:pool:worker-died")
         # one service instance per connection
         seen = {}
         for what, peer, inst in sess.backend.hook_table():
@@ -668,6 +714,13 @@ def oracle_search(ctx, corr, broken):
         if any("spares_newcomer" in b for b in broken):
             # the obligation about reused descriptor numbers: its scenarios first
             cases.sort(key=lambda c: 0 if any(t[0] == "h" for t in c["ops"]) else 1)
+        # boundary cases that contain the kind of operation at which model and server parted come first (pool first: it is
+        # the kind whose workers are shared)
+        letters = set(d["case"]["ops"][d["op_index"]][0] for d in corr.disagreements[:20]
+                      if d.get("op_index") is not None and d["op_index"] < len(d["case"]["ops"]))
+        if letters:
+            cases.sort(key=lambda c: (0 if any(t[0] in letters for t in c["ops"]) else 1,
+                                      0 if c["server"] == "pool" else 1))
         for case in cases:
             yield case
         while True:
